@@ -335,6 +335,8 @@ def i2c_rnd_mem(rng):
     # token + arbitrary version + arbitrary bytes, checksum fixed up for v0 or v1 position
     m = bytearray(rng.getrandbits(8) for _ in range(26))
     m[0:4] = TOKEN
+    if rng.random() < 0.15:                                   # wrong token, checksum still fixed up below
+        m[rng.randrange(4)] ^= rng.choice([1, 0x20, 0xFF])
     m[4] = rng.choice([0, 1, 1, 0, 2, 255])
     _quiet(m, (7, 11))
     pos = rng.choice([15, 20])
@@ -592,7 +594,8 @@ def ow_rnd_mem(rng, size=112):
     if k == 6:
         return bytes(rng.getrandbits(8) for _ in range(size)), 'garbage'
     # hand-made element areas (duplicates, unknown ids, truncated TLVs, length running over the area), CRCs fixed up
-    h = bytes([0xEB]) + pins.to_bytes(4, 'little') + bytes([vid, pid])
+    start = rng.choice([0xEB, 0xEB, 0xEB, 0xEB, 0xEA, 0x00, 0xFF, 0xBE])     # wrong start byte with a matching header CRC
+    h = bytes([start]) + pins.to_bytes(4, 'little') + bytes([vid, pid])
     h += bytes([binascii.crc32(h) & 0xFF])
     area = bytearray()
     for _ in range(rng.choice([1, 2, 3, 4])):
@@ -714,7 +717,7 @@ def ow_oracle(ctx, deep):
         n += 1
         if o.get('short') or o['valid'] != want or (want and {k: s for k, s in o['elements']} != d):
             cls = 'ow_valid_not_crcs'
-            if not o.get('short') and o['valid'] and not want and len(o.get('reads', [])) == 1:
+            if not o.get('short') and o['valid'] and len(o.get('reads', [])) == 1:   # accepted without reading the area
                 cls = 'ow_two_byte_shortcut_collision'
             fails.append({'class': cls, 'case': {'codec': 'ow', 'op': 'valid', 'mem': list(mem)},
                           'expected': {'valid': want, 'elements': d}, 'observed': o,
@@ -1478,11 +1481,9 @@ def loco2_impl(idl, act, pages):
     try:
         m.update_id_list(lambda x: done.append('ids'))
         fake.run()
-        out['ids'] = [1] + list(m.anchor_ids)
-        assert m.ids_valid and done == ['ids']
+        out['ids'] = [1 if (m.ids_valid and done == ['ids']) else 7] + list(m.anchor_ids)
     except IndexError:
-        out['ids'] = [2] + list(m.anchor_ids)
-        assert not m.ids_valid and not done
+        out['ids'] = [2 if (not m.ids_valid and not done) else 8] + list(m.anchor_ids)
         fake.queue[:] = []
     try:
         m.update_active_id_list(lambda x: done.append('act'))
@@ -1496,7 +1497,7 @@ def loco2_impl(idl, act, pages):
         fake.reads[:] = []
         m.update_data(lambda x: done.append('data'))
         fake.run()
-        assert m.data_valid and done[-1] == 'data'
+        out['data_done'] = bool(m.data_valid and done and done[-1] == 'data')
         out['data'] = (list(fake.reads), [[k, bits32(a.position[0]), bits32(a.position[1]), bits32(a.position[2]), int(bool(a.is_valid))]
                                           for k, a in m.anchor_data.items()])
     return out
@@ -1516,7 +1517,7 @@ def loco_tie(ctx, cases):
         pages = [anchor_bytes(*a) for a in anchors]
         o = loco_impl(nr, pages)
         enc = [int(o['valid']), len(o['reads'])] + [x for r in o['reads'] for x in r] + [x for a in o['anchors'] for x in a]
-        assert o['cb'] == 1
+        enc[0] = enc[0] if o['cb'] == 1 else -7
         cases.add('loco', 'enc_loco (loco_update %d %s)' % (nr, coqrun.zlistlist(pages)), enc, {'loco': [nr, anchors]}, nontrivial=nr > 0)
     for i in range(n):
         cnt = rng.choice([0, 1, 3, 8, 16, 16, 17, 200]) if i % 4 == 0 else rng.randrange(0, 17)
@@ -1531,6 +1532,8 @@ def loco_tie(ctx, cases):
         cases.add('loco2_ids', 'enc_ids (loco2_ids %s)' % ZL(act), o['act'], {'loco2_active_ids': list(act)})
         if o['data'] is not None:
             rq, d = o['data']
+            if not o['data_done']:
+                d = d + [[-1, 0, 0, 0, 0]]                  # never completes: cannot match the model
             enc = [len(rq)] + [x for r in rq for x in r] + [x for a in d for x in a]
             pt = '[' + '; '.join('(%d, %s)' % (k, ZL(p)) for k, p in pages.items()) + ']'
             cases.add('loco2_data', 'enc_loco2 (loco2_data %s %s [] [])' % (ZL(o['ids'][1:]), pt), enc,
@@ -1552,7 +1555,8 @@ def loco_check(c):
     o = loco2_impl(idl, bytes(17), {k: anchor_bytes(*a) for k, a in anchors.items()})
     want = {k: [k, a[0], a[1], a[2], int(a[3] != 0)] for k, a in anchors.items()}
     got = None if o['data'] is None else {a[0]: a for a in o['data'][1]}
-    if o['ids'] != [1] + ids or (ids and got != want) or (ids and [r[0] for r in o['data'][0]] != [0x2000 + 0x100 * k for k in ids]):
+    if o['ids'] != [1] + ids or (ids and got != want) or (ids and not o.get('data_done')) or \
+            (ids and [r[0] for r in o['data'][0]] != [0x2000 + 0x100 * k for k in ids]):
         return {'class': 'loco2_anchor_list_differs', 'case': c, 'expected': {'ids': ids, 'anchors': want}, 'observed': repr(o)[:600]}
     return None
 
@@ -1809,6 +1813,18 @@ def tie(ctx):
     }
 
 
+def _safe(fn):
+    """an exception escaping the implementation during an oracle case is a failure of that case, not of the harness"""
+    def wrapped(c, *a):
+        try:
+            return fn(c, *a)
+        except Exception as e:  # noqa
+            return {'class': '%s_raises' % fn.__name__, 'case': c if isinstance(c, dict) else {'args': repr(c)[:300]},
+                    'expected': 'no exception', 'observed': '%s: %s' % (type(e).__name__, e)}
+    wrapped.__name__ = fn.__name__
+    return wrapped
+
+
 def oracle(ctx, deep=False):
     fails, n = [], 0
     for payload in _corpus():
@@ -1860,5 +1876,6 @@ def replay(payload, ctx):
     return None
 
 
+lh_check, yaml_check, deck_check, loco_check, misc_check = map(_safe, (lh_check, yaml_check, deck_check, loco_check, misc_check))
 REPLAYERS = {'lh': lambda c, ctx: lh_check(c), 'yaml': lambda c, ctx: yaml_check(c), 'deck': lambda c, ctx: deck_check(c),
              'loco': lambda c, ctx: loco_check(c), 'misc': lambda c, ctx: misc_check(c)}
